@@ -181,7 +181,9 @@ func (state *State) NewSocket(src, dst net.Addr) *Socket {
 		laddr: dst,
 		raddr: src,
 
-		rchan: make(chan interface{}),
+		// room for one wake-up: flush() does not wait for the reader, its
+		// signal must not be lost when the reader is not parked yet
+		rchan: make(chan interface{}, 1),
 
 		// rbuffer: rbuf.NewFixedSizeRingBuf(65535),
 		// wbuffer: rbuf.NewFixedSizeRingBuf(65535),
